@@ -49,6 +49,7 @@ type Global struct {
 // Func is a generated function or method.
 type Func struct {
 	Name    string  `json:"name"`
+	Group   bool    `json:"group,omitempty"` // print adjacent named parameters / results of one type as "a, b int"
 	Recv    *Field  `json:"recv,omitempty"`
 	Params  []Field `json:"params,omitempty"`
 	Results []Field `json:"results,omitempty"`
@@ -484,14 +485,24 @@ func (p *printer) closeElseIf(n *Node) {
 	}
 }
 
-func fieldList(fs []Field) string {
-	parts := make([]string, len(fs))
-	for i, f := range fs {
+func fieldList(fs []Field) string { return fieldListG(fs, false) }
+
+// fieldListG: with group set, adjacent named fields of the same type share one type ("a, b int"), which is the same
+// declaration for Go.
+func fieldListG(fs []Field, group bool) string {
+	var parts []string
+	for i := 0; i < len(fs); i++ {
+		f := fs[i]
 		if f.Name == "" {
-			parts[i] = f.Type
-		} else {
-			parts[i] = f.Name + " " + f.Type
+			parts = append(parts, f.Type)
+			continue
 		}
+		names := f.Name
+		for group && i+1 < len(fs) && fs[i+1].Name != "" && fs[i+1].Type == f.Type {
+			i++
+			names += ", " + fs[i].Name
+		}
+		parts = append(parts, names+" "+f.Type)
 	}
 	return strings.Join(parts, ", ")
 }
@@ -506,9 +517,9 @@ func (p *printer) fn(f *Func) {
 	case len(f.Results) == 1 && f.Results[0].Name == "":
 		res = " " + f.Results[0].Type
 	case len(f.Results) > 0:
-		res = " (" + fieldList(f.Results) + ")"
+		res = " (" + fieldListG(f.Results, f.Group) + ")"
 	}
-	p.line("func %s%s(%s)%s {", recv, f.Name, fieldList(f.Params), res)
+	p.line("func %s%s(%s)%s {", recv, f.Name, fieldListG(f.Params, f.Group), res)
 	p.block(f.Body)
 	p.line("}")
 	p.line("")
